@@ -74,16 +74,39 @@ pub fn build_universe(
     n: usize,
     sk: &SchemaKnobs,
     ok: &OpKnobs,
+    opts_for: impl FnMut(&mut Rng, &ASchema) -> Opts,
+) -> Universe {
+    build_universe_with(rep, rng, name, n, sk, ok, opts_for, vec![])
+}
+
+/// `corpus`: fixed (schema, document) cases that run first (witnesses of known findings, past failures)
+#[allow(clippy::too_many_arguments)]
+pub fn build_universe_with(
+    rep: &mut Report,
+    rng: &mut Rng,
+    name: &str,
+    n: usize,
+    sk: &SchemaKnobs,
+    ok: &OpKnobs,
     mut opts_for: impl FnMut(&mut Rng, &ASchema) -> Opts,
+    corpus: Vec<(ASchema, ADoc)>,
 ) -> Universe {
     let mut ctx = CaseCtx::new();
     let mut cases = Vec::new();
     let mut codes = Vec::new();
     let mut attempts = 0;
-    while cases.len() < n && attempts < n * 3 {
+    let mut corpus = corpus.into_iter();
+    let total = n + corpus.len();
+    while cases.len() < total && attempts < total * 3 {
         attempts += 1;
-        let schema = random_schema(rng, sk);
-        let doc = random_doc(rng, &schema, ok);
+        let (schema, doc) = match corpus.next() {
+            Some(x) => x,
+            None => {
+                let schema = random_schema(rng, sk);
+                let doc = random_doc(rng, &schema, ok);
+                (schema, doc)
+            }
+        };
         let mut opts = opts_for(rng, &schema);
         // serde cannot instantiate `Serialize` for a type that contains itself through
         // `#[serde(flatten)]` (E0275, known finding C02-serialize-recursive-flatten): such cases are
@@ -199,6 +222,107 @@ pub fn tie(reply: &Reply, model: &Sexp) -> Option<String> {
         (Reply::Err(e), _) => Some(format!("implementation rejects ({}), model: {}", e, model.short(200))),
         (Reply::Other(o), _) => Some(format!("implementation: {} / model {}", o, model.short(200))),
     }
+}
+
+/// witnesses of the known findings of C01 (kept small; the payload generator does the rest)
+pub fn c01_corpus() -> Vec<(ASchema, ADoc)> {
+    let f = |n: &str, t: ATy| AField { name: n.into(), ty: t, dep: None };
+    let schema = ASchema {
+        types: vec![
+            AType::Interface { name: "Animal".into(), fields: vec![f("name", ATy::NonNull(Box::new(ATy::named("String")))), f("nick", ATy::named("String"))] },
+            AType::Object {
+                name: "Dog".into(),
+                implements: vec!["Animal".into()],
+                fields: vec![f("name", ATy::NonNull(Box::new(ATy::named("String")))), f("nick", ATy::named("String")), f("barks", ATy::named("Boolean"))],
+                ext_fields: vec![],
+            },
+            AType::Object {
+                name: "Cat".into(),
+                implements: vec!["Animal".into()],
+                fields: vec![f("name", ATy::NonNull(Box::new(ATy::named("String")))), f("nick", ATy::named("String")), f("meows", ATy::named("Boolean"))],
+                ext_fields: vec![],
+            },
+            AType::Object { name: "Query".into(), implements: vec![], fields: vec![f("animal", ATy::named("Animal")), f("dog", ATy::named("Dog"))], ext_fields: vec![] },
+        ],
+        query: Some("Query".into()),
+        mutation: None,
+        subscription: None,
+    };
+    let fld = |n: &str, sub: Vec<ASel>| ASel::Field { alias: None, name: n.into(), sub };
+    let mk = |sels: Vec<ASel>, frags: Vec<AFrag>| ADoc { ops: vec![AOp { kind: "query", name: "W".into(), vars: vec![], sels }], frags };
+    vec![
+        // the key `name` is read by the interface-level struct and by the Dog variant
+        (schema.clone(), mk(vec![fld("animal", vec![ASel::Typename, fld("name", vec![]), ASel::Inline { on: "Dog".into(), sub: vec![fld("name", vec![]), fld("barks", vec![])] }])], vec![])),
+        // two spreads on the same object select the same key
+        (
+            schema.clone(),
+            mk(
+                vec![fld("dog", vec![ASel::Spread { name: "A".into() }, ASel::Spread { name: "B".into() }])],
+                vec![AFrag { name: "A".into(), on: "Dog".into(), sels: vec![fld("name", vec![]), fld("barks", vec![])] }, AFrag { name: "B".into(), on: "Dog".into(), sels: vec![fld("name", vec![]), fld("nick", vec![])] }],
+            ),
+        ),
+        // a fragment on an interface under an object-typed parent is dropped
+        (schema.clone(), mk(vec![fld("dog", vec![fld("barks", vec![]), ASel::Inline { on: "Animal".into(), sub: vec![fld("nick", vec![])] }])], vec![])),
+    ]
+}
+
+/// class of the known finding a (schema, document) falls into, if any
+pub fn c01_finding_class(s: &ASchema, doc: &ADoc) -> Option<&'static str> {
+    fn walk(s: &ASchema, doc: &ADoc, parent: &str, sels: &[ASel], found: &mut Option<&'static str>) {
+        // dropped selections: condition on an abstract type under an object parent
+        for sel in sels {
+            let cond = match sel {
+                ASel::Inline { on, .. } => Some(on.clone()),
+                ASel::Spread { name } => doc.frag(name).map(|f| f.on.clone()),
+                _ => None,
+            };
+            if let Some(c) = cond {
+                if !s.is_abstract(parent) && c != parent && s.is_abstract(&c) {
+                    *found = Some("fragment-on-abstract-type-under-object-parent");
+                }
+            }
+        }
+        // overlapping keys for some runtime type
+        for rt in s.possible_types(parent) {
+            let mut keys = Vec::new();
+            keys_of(s, &doc.frags, sels, Some(&rt), &mut keys, 0);
+            let mut sorted = keys.clone();
+            sorted.sort();
+            sorted.dedup();
+            if sorted.len() != keys.len() && found.is_none() {
+                *found = Some("overlapping-response-keys");
+            }
+        }
+        let fields = s.fields_of(parent);
+        for sel in sels {
+            match sel {
+                ASel::Field { name, sub, .. } => {
+                    if let Some(f) = fields.iter().find(|f| &f.name == name) {
+                        if s.is_composite(f.ty.base()) {
+                            walk(s, doc, f.ty.base(), sub, found);
+                        }
+                    }
+                }
+                ASel::Inline { on, sub } => walk(s, doc, on, sub, found),
+                _ => {}
+            }
+        }
+    }
+    let mut found = None;
+    for op in &doc.ops {
+        let root = match op.kind {
+            "query" => s.query.clone(),
+            "mutation" => s.mutation.clone(),
+            _ => s.subscription.clone(),
+        };
+        if let Some(r) = root {
+            walk(s, doc, &r, &op.sels, &mut found);
+        }
+    }
+    for f in &doc.frags {
+        walk(s, doc, &f.on, &f.sels, &mut found);
+    }
+    found
 }
 
 pub fn finish_universe(u: Universe) {
